@@ -34,7 +34,12 @@ type returnValue struct {
 func (et *ExecuteTimeout) Handler(ctx context.Context, name string, args []interface{}, next core.NextInvokeHandler) (result []interface{}, err error) {
 	timeout := et.Timeout
 	serviceContext := core.GetServiceContext(ctx)
-	if t, ok := serviceContext.Method.Options().Get("timeout"); ok {
+	options := serviceContext.Method.Options()
+	if options == nil {
+		// a missing-method handler has no options
+		options = core.NewDict(nil)
+	}
+	if t, ok := options.Get("timeout"); ok {
 		switch t := t.(type) {
 		case time.Duration:
 			timeout = t
